@@ -30,6 +30,7 @@ CHUNK = 1
 TASK_TIMEOUT_S = 900
 DDMIN_MAX_TESTS = 24
 MINIMISE_BUDGET_S = 300
+BUDGETS_S = (170, 2400)
 RUNS = {"C08": (160, 1500)}
 RULE = ("one run = one world: 1..3 interpreter lifetimes sharing one Numba cache directory, each "
         "with 1..5 aggregate() calls of 1..3 helpers over seeded frames (<=12 rows, 1..5 groups, "
@@ -104,8 +105,10 @@ def gen_values(r, dtype, n, groups, na_mode):
     return vals
 
 
-def gen_helper(r, dtype, hid, names):
+def gen_helper(r, dtype, hid, names, alphabet=None):
     fns = HELPERS_DT if dtype.startswith("datetime") else HELPERS_ALL
+    if alphabet:
+        fns = [f for f in fns if f in alphabet] or fns
     fn = r.choice(fns)
     kw = {}
     if fn not in NO_DROP_NA and r.random() < 0.7:
@@ -144,7 +147,7 @@ def gen_call(r, cfg, hid_counter, pool):
                 call["helpers"].append(h)
                 continue
         hid_counter[0] += 1
-        h = gen_helper(r, dtype, hid_counter[0], names)
+        h = gen_helper(r, dtype, hid_counter[0], names, cfg.get("helper_alphabet"))
         call["helpers"].append(h)
         pool.append(h)
     if r.random() < cfg["toggle_rate"]:
@@ -164,6 +167,14 @@ def gen_world(rng, tier):
         "toggle_rate": r.choice([0, 0, 0.15]),
         "nlifetimes": r.choice([1, 2, 2, 3]),
         "fault_world": r.random() < 0.55,
+        # swarm: many worlds use a small helper alphabet so that the same few kernels meet
+        # each other in every order, in one call and across calls
+        "helper_alphabet": r.choice([None, None, r.sample(HELPERS_ALL, 2), r.sample(HELPERS_ALL, 3),
+                                     r.sample(HELPERS_ALL, 4)]),
+        # "twin": the accelerated history and the pure-Python history run in two separate
+        # processes (the property's formulation: same history under either setting);
+        # "inline": both paths alternate inside one process (runtime switching)
+        "oracle": r.choice(["twin", "twin", "inline"]),
     }
     ops = []
     hid = [0]
@@ -176,7 +187,7 @@ def gen_world(rng, tier):
                 kind = r.choice(["wipe", "rollback", "prune", "truncate", "truncate_index"])
                 ops.append({"ev": "cache_fault", "kind": kind, "pick": r.random(), "frac": r.random()})
             if boot["use_cache"] and r.random() < 0.35:
-                boot["crash"] = {"save": r.choice([1, 2, 2, 3, 3, 4, 5, 6]),
+                boot["crash"] = {"save": r.choice([1, 2, 3, 4, 5, 6, 8, 10, 12]),
                                  "phase": r.choice(["before_index", "between", "after_data",
                                                     "torn_data"])}
         ops.append(boot)
@@ -252,8 +263,12 @@ def apply_cache_fault(cache, snapshots, ev, faults):
     return fired
 
 
-def run_lifetime(cache, boot, calls, timeout=600):
-    spec = {"use_cache": boot.get("use_cache", True), "crash": boot.get("crash"), "calls": calls}
+def run_lifetime(cache, boot, calls, timeout=600, mode="both"):
+    spec = {"use_cache": boot.get("use_cache", True), "crash": boot.get("crash"), "calls": calls,
+            "mode": mode}
+    if mode == "ref":
+        spec["use_cache"] = False
+        spec["crash"] = None
     env = dict(os.environ)
     env["NUMBA_CACHE_DIR"] = cache
     env["PYTHONPATH"] = os.environ.get("DSIM_REPO", "/repo") + ":" + kernel.VERIF_DIR
@@ -371,7 +386,7 @@ def execute(trace, prop="C08"):
     probes = {"warm_cache_load": 0, "cold_compile": 0, "lifetime_killed": 0,
               "numba_disabled_at_boot": 0, "accelerated_raise_under_fault": 0,
               "helper_object_reused": 0, "two_helpers_one_call": 0, "runtime_toggle": 0,
-              "whole_group_na": 0}
+              "whole_group_na": 0, "twin_lifetimes": 0}
     log = []
     first_use_pairs = set()
     abstract = []
@@ -408,8 +423,21 @@ def execute(trace, prop="C08"):
             before = set(list_cache(cache))
             calls = [{k: c[k] for k in ("g", "cols", "helpers", "accelerated") if k in c}
                      for c in lt["calls"]]
-            rc, events, err = run_lifetime(cache, boot, calls)
+            twin = trace.get("config", {}).get("oracle") == "twin"
+            rc, events, err = run_lifetime(cache, boot, calls, mode="acc" if twin else "both")
             after = list_cache(cache)
+            if twin:
+                # the same history with USE_NUMBA off, in its own process and private cache dir
+                refcache = os.path.join(root, f"refcache{li}")
+                os.makedirs(refcache, exist_ok=True)
+                rc2, events2, err2 = run_lifetime(refcache, boot, calls, mode="ref")
+                if rc2 != 0:
+                    raise RuntimeError(f"reference twin exit {rc2}: {err2[-500:]}")
+                refs = {e["i"]: e.get("ref") for e in events2 if e["ev"] == "call"}
+                for e in events:
+                    if e["ev"] == "call":
+                        e["ref"] = refs.get(e["i"])
+                probes["twin_lifetimes"] += 1
             crash = boot.get("crash")
             bootev = next((e for e in events if e["ev"] == "boot"), None)
             ended = any(e["ev"] == "end" for e in events)
